@@ -103,10 +103,18 @@ fn dijkstra(start_node: Node, cx: &Cx) -> (r: Vec<Node>)
     loop
         invariant_except_break todo@.len() > 0, (c as int) < todo@.len(), buckets_ok(todo@), scs_nodes@.len() == 0, next@.len() == 0,
         invariant forall|k: int| 0 <= k < c ==> (#[trigger] todo@[k]).nodes().len() == 0, // OBL: C06.dijkstra.no_cheaper_node_is_left_unexamined_when_a_bucket_is_taken_up
+            todo@.len() <= 0x1_0000,
         ensures todo@.len() > 0, (c as int) < todo@.len(), buckets_ok(todo@), next@.len() == 0,
             scs_nodes@.len() == 1 && scs_nodes@[0].succ() && scs_nodes@[0].cost() == c,
     {
         //@probe
+    //@end
+    //@rule n=1 `^(\s*)_ => return Vec::new\(\),$` =>>
+                _ => {
+                    // out of buckets: the search gives up only when no node is left anywhere
+                    assert(forall|k: int| 0 <= k < todo@.len() ==> (#[trigger] todo@[k]).nodes().len() == 0); // OBL: C06.dijkstra.the_search_only_gives_up_when_every_bucket_is_empty
+                    return Vec::new();
+                }
     //@end
     //@rule n=1 `todo\[usize::from\(c\)\]\.is_empty\(\)` => `todo[c as usize].is_empty()`
     //@rule n=* `usize::from\(c\)` => `(c as usize)`
@@ -119,6 +127,7 @@ fn dijkstra(start_node: Node, cx: &Cx) -> (r: Vec<Node>)
             invariant ni_ <= next@.len(), todo@.len() > 0, (c as int) < todo@.len(), buckets_ok(todo@), scs_nodes@.len() == 0,
                 forall|k: int| 0 <= k < next@.len() ==> (#[trigger] next@[k]).0 == next@[k].1.cost() && next@[k].1.cost() >= c,
                 forall|k: int| 0 <= k < c ==> (#[trigger] todo@[k]).nodes().len() == 0, // OBL: C06.dijkstra.a_neighbour_never_lands_in_a_cheaper_bucket
+                todo@.len() <= 0x1_0000,
             decreases next@.len() - ni_,
         {
             //@probe
@@ -126,7 +135,7 @@ fn dijkstra(start_node: Node, cx: &Cx) -> (r: Vec<Node>)
             ni_ = ni_ + 1;
     //@end
     //@rule n=1 `usize::from\(nbr_cost\)` => `(nbr_cost as usize)`
-    //@rule n=1 `todo\.resize\(todo\.len\(\) \+ off \+ 1, IndexMap::new\(\)\);` => `let new_len_ = grown_len(todo.len(), off); resize_buckets(&mut todo, new_len_);`
+    //@rule n=1 `todo\.resize\(off \+ 1, IndexMap::new\(\)\);` => `resize_buckets(&mut todo, off + 1);`
     //@cut n=1 `match todo\[off\]\.entry\(nbr\.clone\(\)\) \{` =>>
             bucket_upsert(&mut todo, off, cx, nbr);
     //@end
